@@ -173,8 +173,11 @@ def vivo_items(ctx, n, check, sims=('step', 'fast'), id0=1, hooks_bias=False):
         else:
             walk = dict(kind='lattice', n=n_min, seed=ctx.seed * 31 + i, step=r.choice([2, 3]), wick=r.choice([1, 3]),
                         gap_p=r.choice([0.1, 0.3]), flat_p=r.choice([0.05, 0.2]))
-        items.append(dict(id=id0 + i, policy=pol, cfg=cfg, walk=walk, fast=fast,
-                          tf={1: '1m', 3: '3m', 5: '5m'}[tfm], check=check))
+        it = dict(id=id0 + i, policy=pol, cfg=cfg, walk=walk, fast=fast, tf={1: '1m', 3: '3m', 5: '5m'}[tfm], check=check)
+        if i % 8 in (4, 5):     # two routes on one exchange: matching must stay per symbol
+            it['symbols'] = ['BTC-USDT', 'ETH-USDT']
+            it['id'] = 100000 + i
+        items.append(it)
     return items
 
 
@@ -186,15 +189,22 @@ def run_vivo(ctx, items, label):
         if r[0] == 'EXC':
             raise Machinery("in-vivo worker failed: %s" % r[1])
         stats.append(r[1])
-        if r[0] is not None:
+        if isinstance(r[0], list):
+            traces += r[0]
+        elif r[0] is not None:
             traces.append(r[0])
     verdicts, results = tlc.validate_traces("TraceMatching", "TraceMatching.cfg", traces, ctx.sub("tv-" + label), parts=14)
     by = {it['id']: it for it in items}
+    for it in items:
+        for k in range(len(it.get('symbols') or [])):
+            by[it['id'] * 4 + k] = it
     nb = report(ctx, verdicts, lambda tid: {'kind': 'vivo', 'item': by[tid]}, label)
     agg = {'runs': len(items), 'fills': sum(s['fills'] for s in stats), 'cancels': sum(s['cancels'] for s in stats),
            'market_orders': sum(s['markets'] for s in stats), 'minutes_or_chunks': sum(s['minutes'] for s in stats),
            'runs_ending_in_a_jesse_exception': sum(1 for s in stats if s['exc'] and not s.get('hang')),
            'runs_dropped_because_the_strategy_livelocked_jesse': sum(1 for s in stats if s.get('hang')),
+           'jesse_exceptions': {c: sum(1 for s in stats if s['exc'] and s['exc'].split(':')[0] == c)
+                                for c in sorted({s['exc'].split(':')[0] for s in stats if s['exc']})},
            'liquidations': sum(s['liq'] for s in stats), 'violating_clauses': nb,
            'tlc_states': sum(r.generated for r in results),
            'events_consumed': sum(v[0] for v in verdicts.values())}
@@ -239,7 +249,7 @@ def run(ctx):
         'fast_fixed': pool.submit(tlc.run, "FastMatching", cfg_text=fast_cfg(3, ctx.pick(2, 3), 2, 1, "fixed"),
                                   workers=ctx.pick(3, 8), coverage=ctx.quick, timeout=ctx.pick(600, 1800)),
         'fast_tree': pool.submit(tlc.run, "FastMatching", cfg_text=fast_cfg(3, 3, 2, 0, "tree", export=True), workers=2,
-                                 timeout=900),
+                                 coverage=ctx.quick, timeout=900),
     }
     if not ctx.quick:
         jobs['fast_fixed_3min'] = pool.submit(tlc.run, "FastMatching", cfg_text=fast_cfg(3, 2, 3, 1, "fixed"), workers=6,
@@ -318,9 +328,9 @@ def replay(ctx, rp):
         res = run_isolated(mt.run_vivo, [dict(p['item'], id=1)])
         if res[0][0] == 'EXC':
             raise Machinery(res[0][1])
-        traces = [res[0][0]]
+        traces = res[0][0] if isinstance(res[0][0], list) else [res[0][0]]
     else:
         raise Machinery("unknown replay kind %r" % p['kind'])
     verdicts, _ = tlc.validate_traces("TraceMatching", "TraceMatching.cfg", traces, ctx.scratch, parts=1)
-    print("replay verdict:", verdicts[1])
+    print("replay verdict:", sorted(verdicts.items()))
     report(ctx, verdicts, lambda tid: p, "replay")
